@@ -227,7 +227,7 @@ def slot_provenance(prog, run, rule, classes=None):
             inv = {k: r_ for r_, k in pos_of.items()}
             names = [inv.get(k, f"#{k}") for k in got]
             ok = got == [want]
-            blind = f"; not decided: the analysis did not follow {ti.unknown[0][1]}" if ti.unknown else ""
+            blind = f"; not decided: the analysis did not follow {ti.blind_for(v)}" if ti.blind_for(v) else ""
             run.ob(rule, runf.qual, f"result.{field} holds the {role} table of the pole routine", True if ok else (None if blind else False),
                    f"values come from returned table(s) {names}" + ("" if ok else f" - expected {role}: tables change places on the way into the result ({cfg}){blind}"),
                    witness=f"{field}<-{names}", file=f, node=runf.node, config=cfg)
@@ -255,7 +255,7 @@ def labels_final(prog, run, rule, classes=None):
         for p_, field in zip(pos[:3], ("Fn_poles", "Xi_poles", "Phi_poles")):
             got = {l for l in labels(env.get(p_)) if l.startswith("hc:")}
             want = {l for l in labels(res.attrs.get(field)) if l.startswith("hc:")}
-            ok = True if got == want else (None if ti.unknown else False)
+            ok = True if got == want else (None if ti.blind_for(env.get(p_), res.attrs.get(field)) else False)
             run.ob(rule, runf.qual, f"SC_apply.{p_} is the table stored as result.{field}", ok,
                    f"criteria on the labelled table {sorted(x[3:] for x in got)}, on the stored table {sorted(x[3:] for x in want)}" +
                    ("" if ok else f" - the labels are computed before {sorted(x[3:] for x in want - got)} is applied: poles rejected afterwards keep a stable label ({cfg})"),
@@ -306,7 +306,8 @@ def classes_rules(prog, run, classes, rn, only=None):
         present = {}
         # what the interpreter could not follow (a dictionary updated with unknown entries, keywords spread from an unknown mapping ...):
         # with any of those, "nothing arrives here" is not a fact about the code and the verdict is left open
-        blind = f"; not decided: the analysis did not follow {ti.unknown[0][1]}" + (f" (and {len(ti.unknown) - 1} more)" if len(ti.unknown) > 1 else "") if ti.unknown else ""
+        blind_all = ti.blind_for(*[res.attrs.get(t_) for t_ in tables] + [x_ for _q, env_, _n in ti.call_log for x_ in env_.values()])
+        blind = f"; not decided: the analysis did not follow {blind_all}" if blind_all else ""
         absent = None if blind else False
         for tname in tables:
             v = res.attrs.get(tname)
@@ -419,10 +420,14 @@ def sense(prog, run):
             near = [x for x in found if x[0] == c[0] and x[2] == c[2]]
             if not ok and not any(x[2] == c[2] or x[0] == c[2] for x in found):
                 ok = None           # no comparison with that threshold in a form we read: the criterion may be written another way
+            if not ok and any(x[2] == c[2] and x[0] == "expr" for x in found):
+                ok = None           # the threshold is compared with a quantity computed in place: which indicator it is cannot be read off
             run.ob("R-sense", fi.qual, f"{c[0].split(':')[1]} {c[1]} {c[2].split(':')[1]}", ok,
                    "keep-condition present" if ok else f"expected keep-condition {c} not found; conditions on thresholds in this function: {sorted(found)}",
                    witness=str(sorted(near) or sorted(found)), file=f, node=nodes.get(c, fi.node))
         for c in sorted(found - exp):
+            if c[0] == "expr" and any(e_[2] == c[2] for e_ in exp):
+                continue            # reported above as not identified
             run.ob("R-sense", fi.qual, f"extra condition {c}", False, f"unexpected condition on a threshold: {c}", witness=str(c), file=f, node=nodes.get(c))
     # applymask: np.where(mask-derived, arr, nan)
     fi = prog.func("functions.gen.applymask")
